@@ -16,7 +16,8 @@ def _inputs(w):
     n = w['notes']
     T, K, form = n['T'], n['K'], n['form']
     inp = w['inputs']
-    cost = [[frac(inp.get('c_%d_%d' % (i, k), inp.get('ll_%d_%d' % (i, k), 0))) for k in range(K)] for i in range(T)]
+    default = 1000 if n.get('wide') else 0
+    cost = [[frac(inp.get('c_%d_%d' % (i, k), inp.get('ll_%d_%d' % (i, k), default))) for k in range(K)] for i in range(T)]
     if 'll_0_0' in inp:
         cost = [[-v for v in row] for row in cost]
     if form == 'vector':
@@ -33,6 +34,8 @@ def _cost_of(seq, cost, beta):
 
 
 def _brute(T, K, cost, beta):
+    if K ** T > 200000:
+        raise ValueError('brute force too large')
     best = None
     for seq in itertools.product(range(K), repeat=T):
         v = _cost_of(seq, cost, beta)
